@@ -42,12 +42,13 @@ type MuxTrack struct {
 
 // MuxSpec is a whole file.
 type MuxSpec struct {
-	Tracks    []MuxTrack
-	Order     [][2]int // (track index, chunk index) in file order
-	MdatFirst bool
-	LargeMdat bool
-	MovieTS   uint32
-	FreeAfter int // free box after ftyp (size, 0 = none)
+	Tracks           []MuxTrack
+	ChunksOutOfOrder bool
+	Order            [][2]int // (track index, chunk index) in file order
+	MdatFirst        bool
+	LargeMdat        bool
+	MovieTS          uint32
+	FreeAfter        int // free box after ftyp (size, 0 = none)
 }
 
 func fullbox(typ string, version byte, flags uint32, payload []byte) []byte {
@@ -429,6 +430,12 @@ func DrawMuxSpecOpt(t *sim.Tape, av bool) (*MuxSpec, error) {
 		ti := cands[t.Draw(len(cands))]
 		s.Order = append(s.Order, [2]int{ti, next[ti]})
 		next[ti]++
+	}
+	if len(s.Order) >= 2 && t.Chance(100) {
+		// chunks need not lie in the file in the order of their chunk numbers: two placements are exchanged
+		i, j := t.Draw(len(s.Order)), t.Draw(len(s.Order))
+		s.Order[i], s.Order[j] = s.Order[j], s.Order[i]
+		s.ChunksOutOfOrder = i != j
 	}
 	return s, nil
 }
